@@ -396,6 +396,8 @@ def systematic_scenarios(tier):
     # explicit times from a tiny alphabet: back-to-back tests whose start time equals the previous test's end time
     # (and start = end), with another thread's block in between
     sc.append(([[T(st=5, en=7), T(st=7, en=9)], [T("addError", st=6, en=8)]], [], 2))
+    # the clock may go backwards (TestResult.time): an end time EARLIER than the start time is forwarded as it is
+    sc.append(([[T(st=7, en=5), T(st=5, en=3, xt=add("x"))], [T("addError", st=6, en=4)]], [], 2))
     sc.append(([[T(st=5, en=7, xt=add("x")), T(st=7, en=7), T(st=7, en=7)], [T(st=7, en=7)]], [], 2))
     sc.append(([[T(st=5, en=7), T(st=7, en=9)], [R("stop"), T(st=7, en=9)]], [(1, 4)], 2))
     # shouldStop polled while another thread is inside its block
@@ -439,8 +441,8 @@ def random_scenario(rng):
             for it in items:
                 if it["kind"] == "test":
                     it["st"] = cur
-                    it["en"] = cur + rng.choice((0, 0, 1))
-                    cur = it["en"] + rng.choice((0, 0, 1))
+                    it["en"] = max(1, cur + rng.choice((0, 0, 1, -1)))  # (time may go backwards)
+                    cur = max(1, it["en"] + rng.choice((0, 0, 1, -1)))
     if rng.random() < 0.3:
         for items in work:
             for it in items:
